@@ -249,6 +249,13 @@ def c17():
                     dyadic=4, cc_defs=["LL_REALLOC_UNREACHABLE"]))
     qs.append(Q("initslot_resolve", "collider.cpp", "vh_initslot", {"AXIS": 0, "VH_RESOLVE": None}, unwind=8, unwindset={"initSlot": 6, "vh_initslot": 6, "resolve": 6, "closest": 4, "find_exclusion_under": 5},
                 cc_defs=["LL_REALLOC_UNREACHABLE"], cbmc_flags=["--sat-solver", "cadical"], timeout=1700, tiers=("experimental",)))     # bit-precise IEEE; not registered in any tier until it gives a verdict (the dyadic lowering cannot express resolve's FLT_MAX sentinels)
+    for ax in range(4):
+        for hb in ((0,) if ax < 2 else (3, 5)):      # diagonal axes: 3-bit inputs in the quick tier, 5-bit in the thorough tier (520 s and more)
+            d = {"WINAXIS": ax}
+            if hb: d["HBITS"] = hb
+            qs.append(Q(f"resolve_axis{ax}" + (f"_b{hb}" if hb else ""), "resolve.cpp", "vh_resolve_axis", d, unwind=8, unwindset={"resolve": 6, "vh_resolve_axis": 6},
+                        stubs=["_ZNK9graphite25Zones7closestEfRf"], unit_flags={"Collider": ["-fno-inline"], "Intervals": ["-fno-inline"]}, cc_defs=["LL_REALLOC_UNREACHABLE"],
+                        timeout=600 if hb != 5 else 1700, tiers=("thorough",) if hb == 5 else ("quick", "thorough"), cbmc_flags=["--sat-solver", "cadical"]))
     for cost in (0, 1):
         qs.append(Q("mergeslot_subbox_equiv" + ("_cost" if cost else ""), "mergeslot.cpp", "vh_mergeslot_sub", {"CMP_COST": None} if cost else {}, unwind=8, unwindset={"mergeSlot": 6, "vh_mergeslot_sub": 14},
                     stubs=["_ZN9graphite25Zones20exclude_with_marginsEffi", "_ZN9graphite25Zones12weightedAxisEiffffffffb"], unit_flags={"Collider": ["-fno-inline"], "Intervals": ["-fno-inline"]},
